@@ -144,7 +144,10 @@ pub fn op_specs() -> Vec<OpSpec> {
     // persistence arguments these operators accept but do not document: differential only
     for p in P::BOTH {
         add(&pn("cross_singleton", p), CrossSingleton(Some(p)), vec![None, None], false);
-        add(&pn("zip_longest", p), ZipLongest(Some(p)), vec![None, None], false);
+        if p == P::Tick {
+            // (`zip_longest::<'static>` is rejected with the diagnostic "can only have 'tick persistence")
+            add(&pn("zip_longest", p), ZipLongest(Some(p)), vec![None, None], false);
+        }
     }
     for a in P::BOTH {
         for b in P::BOTH {
@@ -387,10 +390,18 @@ pub struct ProgSpec {
     pub kind: Kind,
 }
 
+/// Development aid: building with `VF_DFIR_SUBSET=1` in the environment compiles only the base
+/// shapes and the depth-0 blocking programs (fast turnaround while editing operator templates).
+/// The registered checks are built without it.
+const SUBSET: bool = option_env!("VF_DFIR_SUBSET").is_some();
+
 pub fn family() -> Vec<ProgSpec> {
     let mut out: Vec<ProgSpec> = vec![];
     for (si, spec) in op_specs().iter().enumerate() {
         for shape in Shape::all(spec.op.n_in()) {
+            if SUBSET && shape != Shape::Base {
+                continue;
+            }
             if !spec.documented && !shape.preserving() {
                 // undocumented configurations are covered differentially (C22) only
                 continue;
@@ -404,7 +415,7 @@ pub fn family() -> Vec<ProgSpec> {
             });
         }
     }
-    for pipe in pipelines(C23_DEPTH) {
+    for pipe in pipelines(if SUBSET { 0 } else { C23_DEPTH }) {
         for cons in CONSUMERS {
             let prog = build_blocking_prog(&pipe, cons);
             let pn = if pipe.is_empty() { "direct".to_string() } else { pipe.iter().map(|s| format!("{s:?}")).collect::<Vec<_>>().join(">") };
